@@ -165,7 +165,7 @@ class Gen:
         r = self.r
         k = r.random()
         if k < 0.45 or depth <= 0:
-            return self.primitive(0)
+            return self.path(1) if r.random() < 0.8 else self.primitive(0)
         if k < 0.6:
             return f"{self.primitive(0)} {r.choice(['==', '!=', '<', '>', '<=', '>=', 'contains', 'in'])} {self.primitive(0)}"
         if k < 0.7:
@@ -403,7 +403,15 @@ def gen_program(r: Any, *, depth: int, size: int, cyclic: bool = False, comments
             main_nodes += g.nodes(depth - 1, 1)
         progs["main"] = show(main_nodes, r)
     else:
-        progs["main"] = show(g.nodes(depth, r.randint(1, size)), r)
+        main_nodes = g.nodes(depth, r.randint(1, size))
+        text = show(main_nodes, r)
+        for nm in names:
+            if ("'" + nm + "'") not in text and ('"' + nm + '"') not in text and r.random() < 0.7:
+                save = g.partials
+                g.partials = [nm]
+                main_nodes.insert(r.randint(0, len(main_nodes)), g.partial_tag())
+                g.partials = save
+        progs["main"] = show(main_nodes, r)
     return progs
 
 
@@ -415,10 +423,10 @@ def gen_data(r: Any, mode: str) -> dict[str, Any]:
 
     def scalar() -> Any:
         if mode == "true":
-            return r.choice([1, "s", obj(0)])
+            return r.choice([1, "s", 2, "t", obj(0)])
         if mode == "false":
             return r.choice([False, None])
-        return r.choice([1, "s", obj(0), False, None, 0, "", 2])
+        return r.choice([1, "s", obj(0), False, None, 0, "", 2, 3, "u"])
 
     def lst() -> Any:
         n = {"true": 2, "false": 0}.get(mode, r.choice([0, 1, 2, 3]))
@@ -1420,7 +1428,7 @@ def main(chk: C.Check, build: C.Build) -> None:
 
     # ---- programs
     programs: list[tuple[dict[str, str], bool]] = [(p, True) for p in CORPUS]
-    nprog = 1500 if thorough else 150
+    nprog = 1500 if thorough else 110
     for i in range(nprog):
         cyc = i % 10 == 9
         programs.append((gen_program(r, depth=r.choice([1, 2, 2, 3]) if thorough else r.choice([1, 2, 2]),
@@ -1432,7 +1440,8 @@ def main(chk: C.Check, build: C.Build) -> None:
              "render_errors": {}, "events": 0, "lookups": 0, "global_lookups": 0, "filters": 0, "tags": 0,
              "decisions": 0, "with_partials": 0, "with_inheritance": 0, "tag_nodes": 0, "tag_nodes_rendered": 0,
              "trace_cases": 0}
-    nontrivial = 0
+    nontrivial: set[str] = set()
+    seen_programs: set[str] = set()
     samples: list[Any] = []
     for pi, (progs, renderable) in enumerate(programs):
         try:
@@ -1444,6 +1453,10 @@ def main(chk: C.Check, build: C.Build) -> None:
         except Exception:  # noqa: BLE001 - syntax / lexer errors of generated text: not C11's business
             stats["unparsable"] += 1
             continue
+        key = repr(sorted(progs.items()))
+        if key in seen_programs:
+            continue
+        seen_programs.add(key)
         stats["programs"] += 1
         stats["with_partials"] += any(k.startswith("p") for k in progs)
         stats["with_inheritance"] += "base" in progs
@@ -1490,7 +1503,7 @@ def main(chk: C.Check, build: C.Build) -> None:
         rendered: set[int] = set()
         model_t: list[str] = []
         if renderable:
-            datasets = [gen_data(r, m) for m in (["true", "false", "mix", "mix"] if thorough else ["true", "false", "mix"])]
+            datasets = [gen_data(r, m) for m in ["true", "false", "mix", "mix", "true", "mix"]]
             if pi < len(CORPUS):
                 datasets = CORPUS_DATA + datasets[:1]
             prog_events = 0
@@ -1510,7 +1523,7 @@ def main(chk: C.Check, build: C.Build) -> None:
                     chk.finding(sig, what, {**replay, "data": d, **info, "how": "harness/c11.py run_render + usage_findings"})
                 if run["status"] == "ok":
                     stats["renders_completed"] += 1
-                    me = model_events(eng, evs)
+                    me = model_events(eng, evs) if len(model_t) < (4 if thorough else 3) else None
                     if me is not None:
                         stats["trace_cases"] += 1
                         parts.append(f"chk_trace L (fun _ => []) {oracle_terms(run['decisions'])} {C.clist(me, 'event')}")
@@ -1520,7 +1533,7 @@ def main(chk: C.Check, build: C.Build) -> None:
                 else:
                     stats["render_errors"][run["status"]] = stats["render_errors"].get(run["status"], 0) + 1
             if prog_events and len(rendered) >= 2:
-                nontrivial += 1
+                nontrivial.add(key)
             stats["tag_nodes"] += len(tag_ids)
             stats["tag_nodes_rendered"] += len(tag_ids & rendered)
         if len(samples) < 4 and pi >= len(CORPUS) and renderable:
@@ -1542,16 +1555,16 @@ def main(chk: C.Check, build: C.Build) -> None:
                       "model": f"let L := {c_loader(eng)} in model_trace L {reads} {oracle_terms(run['decisions'])}",
                       "replay": {"templates": eng.templates, "events": run["events"]}})
 
-    C.correspond(chk, "c11", IMPORTS, "", items, what="Analysis.analyze/analyze_async/helpers/run", shard=25 if not thorough else 40)
+    C.correspond(chk, "c11", IMPORTS, "", items, what="Analysis.analyze/analyze_async/helpers/run", shard=8 if not thorough else 40)
     C.proofs_verdict(chk, proofs_ok)
 
     chk.coverage.update({
         "evaluations": len(items) + stats["renders"],
-        "distinct_nontrivial": nontrivial,
+        "distinct_nontrivial": len(nontrivial),
         "rule": ("programs = main template + 0-3 partials (include/render with with/for/as/keyword arguments) and, for 35%, "
                  "a 1-2 level extends chain with blocks and block.super, generated from a grammar over every node and expression "
                  "class of the model; each program is analysed (sync, async, include_partials on/off, helper methods) and rendered "
-                 "with 3-4 data sets (all truthy / all falsy+empty lists / mixed); non-trivial = a program whose renders produced "
+                 "with 6 data sets (all truthy / all falsy+empty lists / mixed; the first 3-4 completed renders are also replayed on the model); non-trivial = a program whose renders produced "
                  "context lookups or filter calls and rendered at least two distinct tag nodes"),
         "samples": samples,
         "distribution": stats,
